@@ -493,6 +493,8 @@ var c01ArgPool = []string{
 	`""`, `"a"`, `"abc"`, "`raw`", `"%s %d"`, `"["`, "'c'", "nil", "true", "false",
 	"[]", "[1 2 3]", `["a" "b"]`, "[[1] [2]]", "(list)", "(list 1 2)", "(quote (a . b))", "(hash)", "(hash a: 1)", "(hash a: (hash b: 2))",
 	"%sym", "%a.b", "(quote ())", "(fn [x] x)", "(fn [] 1)", "+", "hget", "(raw)", "(now)", "(& 1)", "(array 3)", "{}", "a:", ":=", "=",
+	// values that contain themselves
+	"(let [cy (hash)] (hset cy self: cy) cy)", "(let [ca [1 2]] (aset ca 0 ca) ca)", "(let [cb [1] ch (hash)] (hset ch arr: cb) (aset cb 0 ch) cb)",
 	"(list 1 (list 2 (list 3)))", "[nil nil]", "(hash 1 2)", `(hash "k" [1 2])`, "int64", "string", "(quote int64)",
 }
 
@@ -635,6 +637,7 @@ func shrinkC01(body json.RawMessage) []json.RawMessage {
 }
 
 func init() {
+	kernel.RegisterWarmup(func() { c01Names() })
 	cnt := func(q, t int) func(string) int {
 		return func(tier string) int {
 			if tier == "thorough" {
@@ -661,7 +664,7 @@ func init() {
 		},
 		Assume: []string{
 			"a step-budget abort classifies the run as unbounded; the property promises a return only for programs needing bounded steps",
-			"memory exhaustion (e.g. a damaged script asking makeArray for 10^9 cells) and Go stack exhaustion by unbounded recursion are counted as resource_exhausted, not as violations: the property says nothing about memory",
+			"memory exhaustion (e.g. a damaged script asking makeArray for 10^9 cells) is counted as resource_exhausted, not as a violation: the property says nothing about memory. Go stack exhaustion IS judged: script recursion is bounded by the step budget far below the (lowered, 512 MiB) stack limit, so a stack overflow is recursion inside the library",
 			"texts <= 4 KiB; blocking channel primitives (makeChan/send/<!) are excluded here",
 			"a panic raised by a host-registered macro travels back to the host outside any recover of the library and is not counted",
 		},
